@@ -1,4 +1,5 @@
 import Gmsm.Model.Resume
+import Gmsm.Model.TicketCap
 namespace Driver
 open Model.Resume
 
@@ -18,7 +19,8 @@ def parseStep (st : String) : Option Step :=
     | some srv, some su, some cc => some (.conn ⟨srv % 2, su, cc, tamper ≠ "n"⟩)
     | _, _, _ => none
   | ["k", srv, ks] => match srv.toNat?, (ks.splitOn "+").mapM String.toNat? with
-    | some srv, some ks => some (.keys (srv % 2) ks) | _, _ => none
+    | some srv, some ks => if ks.all (· < 1000000000) then some (.keys (srv % 2) ks) else none   -- `autoKey` names start at 10^9
+    | _, _ => none
   | ["s", srv, su] => match srv.toNat?, parseSuitesR su with
     | some srv, some su => some (.suites (srv % 2) su) | _, _ => none
   | ["a", srv, a] => match srv.toNat?, a.toNat? with
@@ -27,6 +29,7 @@ def parseStep (st : String) : Option Step :=
   | ["v", srv, v] => match srv.toNat?, parseHexNat v with
     | some srv, some v => some (.maxv (srv % 2) v) | _, _ => none
   | ["z", b] => some (.clientOff (b = "1"))
+  | ["n", srv] => srv.toNat?.map fun srv => .fresh (srv % 2)
   | _ => none
 
 def showOutcome : Outcome → String
@@ -71,10 +74,24 @@ def lruOp (args : List String) : String :=
       | some (c, out) => " ".intercalate out ++ " | " ++ " ".intercalate (c.map fun e => s!"{e.1}={e.2.sess.sid}")
   | _ => "bad-op"
 
+/-- `ticketcap <gm|tls> <certsize>`: three connections of a client whose only certificate has <certsize>
+    bytes (48-byte master secret): the length of the ticket it caches after the first (0: none) and the
+    outcome of each connection - Model.TicketCap.threeConnections -/
+def ticketcapOp (args : List String) : String :=
+  match args with
+  | [mode, size] =>
+    match (mode = "gm" || mode = "tls"), size.toNat? with
+    | true, some n =>
+      let (t, r2, r3) := Model.TicketCap.threeConnections 48 [n]
+      s!"t={t},F," ++ (if r2 then "R" else "F") ++ "," ++ (if r3 then "R" else "F")
+    | _, _ => "bad-op"
+  | _ => "bad-op"
+
 def resumeDispatch (toks : List String) : Option String :=
   match toks with
   | "resume" :: rest => some (resumeOp rest)
   | "lru" :: rest => some (lruOp rest)
+  | "ticketcap" :: rest => some (ticketcapOp rest)
   | _ => none
 
 end Driver
